@@ -113,8 +113,10 @@ def run(chk, facts):
         ok = src(strip(w["body"])).replace(" ", "") in ("{self.to_string().len()}", "self.to_string().len()")
         chk.ob("R-C18-2", "width=to_string().len()", ok, "Token::width is the length of the printed form" if ok else f"Token::width is `{src(w['body'])[:60]}`", facts.loc_of(w))
         st = syn.one_fn("token", impl_of="State")
+        from .common import inline_lets
         s_ = src(st["body"]).replace(" ", "")
-        ok1 = "self.pos=self.pos.offset_pos(token.clone().width())" in s_ or "self.pos=self.pos.offset_pos(token.width())" in s_
+        s_inl = src(inline_lets(st["body"])).replace(" ", "")   # named intermediates are inlined (wrapped in parentheses)
+        ok1 = re.search(r"self\.pos=self\.pos\.offset_pos\(\(*token(\.clone\(\))?\.width\(\)\)*\)", s_inl) is not None
         n_sat = s_.count(".lines().count().saturating_sub(1)")
         ok2 = n_sat == 2 and "asi32" not in s_.split("self.cur_indent=self.line_indent")[-1]
         chk.ob("R-C18-2", "State::token:advance", ok1, "State::token advances the caret by token.width()" if ok1 else "State::token no longer advances the caret by token.width()", facts.loc_of(st))
